@@ -312,6 +312,50 @@ m = {
     "notes": "fix: commits in /repo and known findings are listed in known_findings.jsonl; see DESIGN.md",
     "not_applicable": [],
 }
+# What later rounds of seeded changes added to each check (appended to the claim text).
+ADDENDA = {
+    "C01": " Later additions: the direction / array / concat loop bodies, update_ref_deps, resolve_portref under contract; "
+           "bounded families for designs written in several steps, declaration orders of reference chains, every "
+           "concatenation of two or three pieces of one bus, and C05's adversarial-name designs against the reference meaning.",
+    "C02": " Later additions: _slice_inner's rejection clauses (an index selecting nothing raises) proved under C02 as well; "
+           "faults that arise through history: every empty slice on ports of every width, edits attempted (and possibly "
+           "refused) after a first elaboration / export, signals resized after a slice or concatenation of them was looked at.",
+    "C03": " Later additions: ref_width proved (the present width of the referent, through module / primitive / external "
+           "instances); Slice properties resolve anew on each read (no memo); run-time contract on parents of 7 kinds "
+           "(port and bundle references, slices, concatenations) incl. histories in which the referent is resized between "
+           "two indexings; same-parent histories.",
+    "C04": " Later additions: final connections to bundle members (b.x) in the elaborated histories; references held in a "
+           "variable or inside a concatenation.",
+    "C05": " Later additions: the loop insertion sites of arrays.py / flatten_bundles.py / inst_bundles.py, copy_port; "
+           "adversarial designs in which the designer's signal is used directly / through a slice / a concatenation / not at "
+           "all, the designer's own compound (pair, array, bundle instance) carries the invented name, and invented names clash "
+           "with each other also on a child's bundle port.",
+    "C06": " Later additions: modules edited after a first export, C02's history faults, every concatenation of two or three "
+           "pieces of one bus.",
+    "C07": " Later additions: io_for_resolving / io_for_checking under contract; cache-ownership audit; histories with an "
+           "unrelated look-alike design and with list calls that fail on their last member.",
+    "C08": " Later additions: the poison invariant is an equivalence (an error is recorded on a module iff its own rewrite "
+           "raised), proved for elaborate_module_base, its loops and elaborate_tops.",
+    "C09": " Later additions: qualpath under contract; every pair of strings of up to three pieces over small alphabets "
+           "(blanks, '=', line breaks, None) named differently; a call repeated after 3 000 (20 000) other cached calls; "
+           "external modules of one name in two domains and generators / modules of one name from two Python modules as "
+           "parameter values.",
+    "C12": " Later additions: each process makes a different number of throw-away generator calls first; designs asking for "
+           "one generated cell twice with 40 / 150 / 400 other calls in between.",
+    "C13": " Later additions: str-typed parameter-class fields and the model parameter of the physical primitives with "
+           "leading / trailing blanks and line breaks.",
+    "C15": " Later additions: use_defaults of the Sky130 and GF180 walkers proved; two requests in one compile in both orders "
+           "with the designer's parameter objects compared before / after; compile by default after a failed compile to "
+           "another PDK.",
+    "C16": " Later additions: three separator / empty-name guards of walk proved; ports re-declared after use at every level; "
+           "path names of several hundred characters.",
+    "C17": " Later additions: export_attr / named analyses / Sim.add loop body under contract; analysis objects used more than "
+           "once (nested ones included); lists of 3-4 Sims with interleaved testbenches.",
+    "C18": " Later additions: Module.add refuses the protected names (must_raise clause); __getattr__ for underscore names; "
+           "names only add() can give; class bodies whose values already carry another name (modules and bundles).",
+    "C19": " Later additions: _unused_name and a naming-site audit of Series / Wrapper; unit ports called like the generator's "
+           "own objects (i, units, inner, units_0); units of one name from one factory.",
+}
 for pid in ALL:
     c = CLAIMS.get(pid)
     if c is None:
@@ -324,7 +368,7 @@ for pid in ALL:
         "evidence_file": f"evidence/{pid}.json",
         "replay_cmd_template": f"./check {pid} --replay {{path}}",
         "engine": "pyvc+rtc",
-        "level_claimed": {"category": c["category"], "text": c["text"], "design_ref": c["design_ref"]},
+        "level_claimed": {"category": c["category"], "text": c["text"] + ADDENDA.get(pid, ""), "design_ref": c["design_ref"]},
         "level_note": c["note"],
         "technique": c["technique"],
     })
